@@ -34,6 +34,10 @@ var c03Kinds = map[int]string{1: "plain", 2: "wrapped", 3: "logwriter", 4: "leve
 const (
 	c03CustomErr  = 21 // registered with the error-device option
 	c03CustomNorm = 22 // registered without
+	// the error-device option and the treated-as level are independent of each other
+	c03CustomNormE = 23 // treated as Error, error device not requested  -> normal writers
+	c03CustomErrI  = 24 // treated as Info, error device requested        -> error writers
+	c03CustomNormF = 25 // treated as Warn, error device explicitly refused -> normal writers
 )
 
 func (p *C03) Gen(seed uint64, i int, tier string) *scen.Scenario {
@@ -48,6 +52,9 @@ func (p *C03) Gen(seed uint64, i int, tier string) *scen.Scenario {
 	sc.Setup = append(sc.Setup,
 		scen.Op{Op: "register_level", Lvl: c03CustomErr, Name: "cerr", Opts: []scen.Op{{Kind: "errdev", B: []bool{true}}, {Kind: "treat_as", Lvl: model.Error}}},
 		scen.Op{Op: "register_level", Lvl: c03CustomNorm, Name: "cnorm", Opts: []scen.Op{{Kind: "treat_as", Lvl: model.Info}}},
+		scen.Op{Op: "register_level", Lvl: c03CustomNormE, Name: "cnorme", Opts: []scen.Op{{Kind: "treat_as", Lvl: scen.Pick(r, []int{model.Error, model.Panic, model.Warn})}}},
+		scen.Op{Op: "register_level", Lvl: c03CustomErrI, Name: "cerri", Opts: []scen.Op{{Kind: "treat_as", Lvl: scen.Pick(r, []int{model.Info, model.Debug})}, {Kind: "errdev", B: []bool{true}}}},
+		scen.Op{Op: "register_level", Lvl: c03CustomNormF, Name: "cnormf", Opts: []scen.Op{{Kind: "errdev", B: []bool{false}}, {Kind: "treat_as", Lvl: model.Warn}}},
 	)
 	ws := map[int]*model.Writers{}
 	var loggers []int
@@ -57,11 +64,12 @@ func (p *C03) Gen(seed uint64, i int, tier string) *scen.Scenario {
 	pickW := func() int { return r.Range(1, 6) }
 	errSevs := []int{model.Panic, model.Fatal, model.Error, model.Warn, model.Fail}
 	normSevs := []int{model.Info, model.Debug, model.Trace, model.Always, model.OK, model.Success}
-	allSevs := append(append(append([]int{}, errSevs...), normSevs...), c03CustomErr, c03CustomNorm)
+	allSevs := append(append(append([]int{}, errSevs...), normSevs...), c03CustomErr, c03CustomNorm, c03CustomNormE, c03CustomErrI, c03CustomNormF)
 
 	probe := func(l int) {
 		m := ws[l]
 		sevs := map[int]bool{c03CustomErr: true, c03CustomNorm: true}
+		sevs[scen.Pick(r, []int{c03CustomNormE, c03CustomErrI, c03CustomNormF})] = true
 		sevs[scen.Pick(r, errSevs)] = true
 		sevs[scen.Pick(r, errSevs)] = true
 		sevs[scen.Pick(r, normSevs)] = true
@@ -364,11 +372,20 @@ func c03Culprit(setup []scen.Op, upto, l, sev, w int, reg *model.Registry) strin
 	return culprit
 }
 
+// lastLines is the digest of a dead world's stderr: the line that names the cause
+// (runtime fatal error, panic, the scheduler's deadlock report) and the tail.
 func lastLines(b []byte, n int) string {
+	head := ""
+	for _, ln := range strings.Split(string(b), "\n") {
+		if strings.HasPrefix(ln, "fatal error:") || strings.HasPrefix(ln, "panic:") || strings.HasPrefix(ln, "verif: DEADLOCK") {
+			head = ln + " ... "
+			break
+		}
+	}
 	if len(b) > n {
 		b = b[len(b)-n:]
 	}
-	return string(b)
+	return head + string(b)
 }
 
 func destName(w int, kinds map[int]string) string {
